@@ -29,9 +29,23 @@ Loop  (manager.py `tick`, `_flush`, `dispatchEvents`, `_dispatcher`):
                      if remaining > 0 or len(self._queue) or not self._running:
                          event.reduce_time_left(0)                  tlwZero ; lHsetR false
                                                                     lRel
-                 event.handler = event_handler                      hsetW
-                 event_handler(event)                               (waiter, below)
+                 for event_handler in event_handlers:               (sorted by priority)
+                     event.handler = event_handler                  hsetW | hsetWnoResume
+                     event_handler(event)                           (waiter | Timer handler, below)
                  self._currently_handling = None                    hwNone
+Timer handler (timers.py `Timer._on_generate_events`, not yet expired; events.py `reduce_time_left(T)`, T > 0;
+any generate_events handler without `resume` that runs in the loop thread before the waiter):
+    event.handler = <Timer._on_generate_events>                     hsetWnoResume     (setH -> tAcq)
+    event.reduce_time_left(self.expiry - now)
+        with self._lock:                                            lAcq              (tAcq -> tChk)
+            if time_left >= 0 and (self._time_left < 0 or self._time_left > time_left):
+                self._time_left = time_left                         tlwOther          (tChk -> tRel; only from a
+                                                                                       non-zero time left)
+                if self._time_left == 0 and ...                     (false: T > 0)
+                                                                    lRel              (tRel | tChk -> setH)
+    The next handler is another such handler or the waiter (`hsetW`).  `TL` abstracts the time left to its
+    sign, so from `pos` both outcomes of `self._time_left > time_left` are possible; from `neg` the write is
+    forced, from `zero` it is impossible ("can only be used to reduce").
 Fallback waiter (helpers.py `FallBackGenerator._on_generate_events`):
     with event.lock:                                                lAcq
         if event.time_left == 0: event.stop()                       tlr v
@@ -61,6 +75,7 @@ inductive Mode | fallback | poller deriving DecidableEq, Repr
 inductive LPc
   | top | appGe | snap | pops | dSet | dDone
   | armAcq | armSet | armChk | armChkH | armRel | setH
+  | tAcq | tChk | tRel
   | wAcq | wChk | wClr | wRel | wRead1 | posArg | waitPos
   | redAcq | redLower | redChk | redSig | redRel | wRead2 | waitNeg
   | pRead | pSel | pRd | done
@@ -83,7 +98,8 @@ structure St where
   cs : Option Firer     -- the firer inside its critical section (it holds `_lock`)
   handling : HK         -- `_currently_handling` (ge = the current generate_events)
   tl : TL               -- `_time_left` of the current (most recently created) generate_events
-  hset : Bool           -- its `handler` is set (to a handler whose component has `resume`)
+  hset : Bool           -- its `handler` is set to a handler whose component has `resume` (a waiter's)
+  hoth : Bool           -- its `handler` is set to a handler without `resume` (a Timer's)
   tlOld : TL            -- the same two fields of the previous generate_events
   hsetOld : Bool
   tmo : TL              -- the time-out value the waiter read for its wait/select
@@ -94,6 +110,7 @@ inductive Lab
   | lIncr | lAppGe (seq : Nat) (tl0 : TL) | snap (n : Nat) | pop (tid seq : Nat)
   | hwOther | hwNone | hwGe | lAcq | lRel | tlwZero | lHsetR (v : Bool) | hsetW
   | clr | tlr (v : TL) | wake | timeout | wait0 | sigSetL
+  | hsetWnoResume | tlwOther
   | selRet (c : Bool) | selTimeout (c : Bool) | pipeRd
   | fAcq (t : Nat) | fHr (t : Nat) (v : HK) | fIncr (t : Nat) | fApp (t seq : Nat)
   | fTlwZero (t : Nat) | fHsetR (t : Nat) (v : Bool) | fSig (t : Nat) | fRel (t : Nat)
@@ -103,7 +120,7 @@ deriving DecidableEq, Repr
 def init (m : Mode) : St :=
   let e : Ev := ⟨0, 0, 1, false⟩
   { mode := m, q := { ctr := 1, dq := [e], fired := [e] }, lpc := .top, lockL := false,
-    cs := none, handling := .none, tl := .neg, hset := false, tlOld := .neg, hsetOld := false,
+    cs := none, handling := .none, tl := .neg, hset := false, hoth := false, tlOld := .neg, hsetOld := false,
     tmo := .neg, sig := 0 }
 
 def St.pendingNonempty (s : St) : Bool := !(s.q.pending.isEmpty)
@@ -126,7 +143,7 @@ def stepLoop (s : St) : Lab → Option St
     if s.lpc = .appGe ∧ tl0 ≠ .zero then
       match qApp s.q 0 seq true with
       | some q' => some { s with q := q', lpc := .snap, tlOld := s.tl, hsetOld := s.hset,
-                                 tl := tl0, hset := false, cs := s.cs.map ageSaw }
+                                 tl := tl0, hset := false, hoth := false, cs := s.cs.map ageSaw }
       | none => none
     else none
   | .snap n =>
@@ -151,6 +168,7 @@ def stepLoop (s : St) : Lab → Option St
       if s.lpc = .armAcq then some { s with lockL := true, lpc := .armSet }
       else if s.lpc = .wAcq then some { s with lockL := true, lpc := .wChk }
       else if s.lpc = .redAcq then some { s with lockL := true, lpc := .redLower }
+      else if s.lpc = .tAcq then some { s with lockL := true, lpc := .tChk }
       else none
     else none
   | .hwGe => if s.lpc = .armSet then some { s with handling := .ge, lpc := .armChk } else none
@@ -172,12 +190,18 @@ def stepLoop (s : St) : Lab → Option St
       else if s.lpc = .wRel then some { s with lockL := false, lpc := .wRead1 }
       else if s.lpc = .redRel then some { s with lockL := false, lpc := .wRead2 }
       else if s.lpc = .redLower ∧ s.tl = .zero then some { s with lockL := false, lpc := .wRead2 }
+      else if s.lpc = .tRel then some { s with lockL := false, lpc := .setH }
+      else if s.lpc = .tChk ∧ s.tl ≠ .neg then some { s with lockL := false, lpc := .setH }
       else none
     else none
   | .hsetW =>
     if s.lpc = .setH then
-      some { s with hset := true, lpc := if s.mode = .fallback then .wAcq else .pRead }
+      some { s with hset := true, hoth := false, lpc := if s.mode = .fallback then .wAcq else .pRead }
     else none
+  | .hsetWnoResume =>
+    if s.lpc = .setH then some { s with hset := false, hoth := true, lpc := .tAcq } else none
+  | .tlwOther =>
+    if s.lpc = .tChk ∧ s.tl ≠ .zero then some { s with tl := .pos, lpc := .tRel } else none
   | .clr => if s.lpc = .wClr then some { s with sig := 0, lpc := .wRel } else none
   | .tlr v =>
     if v = s.tl then
